@@ -173,6 +173,8 @@ class Gen:
                 if "dq" not in params:
                     params.append("dq")
                 size = E.op(rng.choice(["add", "add", "sub"]), E.sym(rng.choice(size_syms)), E.sym("dq"))
+            elif self.qubits and rng.random() < 0.1:
+                size = E.num(0)          # a routine that hands on an EMPTY register (a measurement, a discard)
             elif self.qubits:
                 size = gen_size_expr(rng, scope)
             elif rng.random() < 0.08:
